@@ -98,6 +98,42 @@ func init() {
 			return true
 		})
 		emit("saveStatusCalls", sc, e.pos(fd))
+		// consensus side: finalizeCommit's order (application commit, WAL end-of-height marker, status) and the startup rule of
+		// node.NewNode that rebuilds a status lagging one block behind the application
+		fd, err = e.funcDecl("consensus/state.go", "ConsensusState", "finalizeCommit")
+		if err != nil {
+			return "", err
+		}
+		emit("finalizeCommitCalls", selCalls(fd.Body, set("CommitBlock", "WriteSync", "ApplyBlock", "updateToState")), e.pos(fd))
+		fd, err = e.funcDecl("node/node.go", "", "NewNode")
+		if err != nil {
+			return "", err
+		}
+		var rebuild []string
+		ast.Inspect(fd.Body, func(x ast.Node) bool {
+			if ifs, ok := x.(*ast.IfStmt); ok && strings.Contains(src(e, ifs.Cond), "appHeight") {
+				rebuild = append(rebuild, "if "+src(e, ifs.Cond))
+				rebuild = append(rebuild, selCalls(ifs.Body, set("ApplyBlock", "LoadBlock", "LoadBlockMeta", "GetValidators"))...)
+				return false
+			}
+			return true
+		})
+		emit("startupRebuild", rebuild, e.pos(fd))
+		fd, err = e.funcDecl("consensus/execution.go", "BlockExecutor", "ApplyBlock")
+		if err != nil {
+			return "", err
+		}
+		emit("applyBlockCalls", selCalls(fd.Body, set("Update", "SaveStatus")), e.pos(fd))
+		var idents []string
+		ast.Inspect(fd.Body, func(x ast.Node) bool {
+			if c, ok := x.(*ast.CallExpr); ok {
+				if id, ok := c.Fun.(*ast.Ident); ok && (id.Name == "updateStatus" || id.Name == "SaveStatus" || id.Name == "validateBlock") {
+					idents = append(idents, id.Name)
+				}
+			}
+			return true
+		})
+		emit("applyBlockSteps", idents, e.pos(fd))
 		fd, err = e.funcDecl("blockchain/store.go", "BlockStore", "DeleteHistoricalData")
 		if err != nil {
 			return "", err
